@@ -102,6 +102,11 @@ def newCreateRequest (H : HashFam) (i : CreateInfo) : Option Json :=
 
 /-! ### update -/
 
+/-- `validateAnchoringWindow`: the signed data is written in JCS, where every number is a double;
+    the builders refuse a bound that would be signed as another number (D41) -/
+def windowExact (af au : Int) : Bool :=
+  decide (-9007199254740992 ≤ af ∧ af ≤ 9007199254740992 ∧ -9007199254740992 ≤ au ∧ au ≤ 9007199254740992)
+
 structure UpdateInfo where
   didSuffix : String := ""
   patches : List Json := []
@@ -127,7 +132,7 @@ def signedRequestJson (ty suffix reveal signed : String) (delta : Option Delta) 
     (match delta with | some d => [("delta", d.toJson)] | none => []))
 
 /-- `NewUpdateRequest` -/
-def newUpdateRequest (H : HashFam) (i : UpdateInfo) : Option Json :=
+def newUpdateRequestCore (H : HashFam) (i : UpdateInfo) : Option Json :=
   if i.didSuffix = "" ∨ i.revealValue = "" ∨ i.patches.isEmpty then none
   else match i.updateKey, i.signer with
     | some k, some s =>
@@ -142,6 +147,10 @@ def newUpdateRequest (H : HashFam) (i : UpdateInfo) : Option Json :=
             | none => none
             | some compact => some (signedRequestJson "update" i.didSuffix i.revealValue compact (some delta))
     | _, _ => none
+
+/-- `NewUpdateRequest` -/
+def newUpdateRequest (H : HashFam) (i : UpdateInfo) : Option Json :=
+  if windowExact i.anchorFrom i.anchorUntil then newUpdateRequestCore H i else none
 
 /-! ### recover -/
 
@@ -165,7 +174,7 @@ def recoverSignedJson (k : Option Jwk) (dh rc : String) (ao : Option Json) (af a
     intMember "anchorFrom" af ++ intMember "anchorUntil" au)
 
 /-- `NewRecoverRequest` -/
-def newRecoverRequest (H : HashFam) (i : RecoverInfo) : Option Json :=
+def newRecoverRequestCore (H : HashFam) (i : RecoverInfo) : Option Json :=
   if i.didSuffix = "" ∨ i.revealValue = "" then none
   else if (i.opaqueDoc.isNone && i.patches.isEmpty) || (i.opaqueDoc.isSome && !i.patches.isEmpty) then none
   else match i.signer, i.recoveryKey with
@@ -185,6 +194,10 @@ def newRecoverRequest (H : HashFam) (i : RecoverInfo) : Option Json :=
               | some compact => some (signedRequestJson "recover" i.didSuffix i.revealValue compact (some delta))
     | _, _ => none
 
+/-- `NewRecoverRequest` -/
+def newRecoverRequest (H : HashFam) (i : RecoverInfo) : Option Json :=
+  if windowExact i.anchorFrom i.anchorUntil then newRecoverRequestCore H i else none
+
 /-! ### deactivate -/
 
 structure DeactivateInfo where
@@ -200,7 +213,7 @@ def deactivateSignedJson (suffix : String) (k : Option Jwk) (af au : Int) : Json
     intMember "anchorFrom" af ++ intMember "anchorUntil" au)
 
 /-- `NewDeactivateRequest` (the recovery key is not validated here) -/
-def newDeactivateRequest (i : DeactivateInfo) : Option Json :=
+def newDeactivateRequestCore (i : DeactivateInfo) : Option Json :=
   if i.didSuffix = "" ∨ i.revealValue = "" then none
   else match i.signer with
     | some s =>
@@ -209,6 +222,10 @@ def newDeactivateRequest (i : DeactivateInfo) : Option Json :=
         | none => none
         | some compact => some (signedRequestJson "deactivate" i.didSuffix i.revealValue compact none)
     | none => none
+
+/-- `NewDeactivateRequest` -/
+def newDeactivateRequest (i : DeactivateInfo) : Option Json :=
+  if windowExact i.anchorFrom i.anchorUntil then newDeactivateRequestCore i else none
 
 /-- the bytes a builder returns: `canonicalizer.MarshalCanonical(schema)` -/
 def requestText (j : Json) : Option String := (transformValue j).map String.ofList
